@@ -592,7 +592,7 @@ func (px *pathCtx) symLenCap() int {
 func (fr *frame) mapKey(k value) value {
 	switch kv := k.(type) {
 	case symInt:
-		fr.i.px.abort("unsupported", "symbolic integer map key")
+		return kv // lookups compare it with each present key (omap.findSym)
 	case *rope:
 		return kv // compared symbolically by omap.findSym
 	case iface:
